@@ -80,7 +80,8 @@ pub async fn idxcrash_cmd(rep: &mut Report, table: &str) {
     let root = scratch("idxcrash");
     rep.max_print = 100_000; // every distinct key is needed (known findings are matched per key)
     // a history with two sealed segments: several streams, two partitions, multi-event transactions
-    let cfg = DbCfg { ..DbCfg::small(1) };
+    // two buckets: bucket 0 rolls over twice, bucket 1 stays in its first segment (buckets at different segment ids)
+    let cfg = DbCfg { ..DbCfg::small(2) };
     let base = root.join("base");
     let mut w = World::new(base.clone(), cfg.clone(), PayloadRule::Rollover, hcommon::seed()).unwrap();
     let mut id = 0u64;
@@ -103,6 +104,14 @@ pub async fn idxcrash_cmd(rep: &mut Report, table: &str) {
         if k == 1 || k == 8 {
             crate::reopen(&mut w).await.expect("reopen during setup");
         }
+    }
+    for k in 0..2u64 {
+        id += 1;
+        let txv = json!({"id": id, "key": "ks9", "p": 1, "xs": {"k": "any"}, "oversize": false,
+                         "evs": [{"s": "s9", "x": {"k": "any"}, "badts": false}]});
+        let prep = w.prepare(&txv);
+        let r = w.db().append_events(prep.tx.clone()).await.expect("setup append (second bucket)");
+        w.record(prep, &json!({"first": r.first_partition_sequence, "vers": [k]}));
     }
     // let the background flush of the sealed segments' indexes finish, then stop
     tokio::time::sleep(std::time::Duration::from_millis(400)).await;
